@@ -279,10 +279,4 @@ theorem critical_params_declared :
     ∀ k ∈ Gen.criticalFilteringParamKeys, ∀ f ∈ ["filter_objects", "filter_object_results"],
       ∃ ps ∈ Gen.calleeParams, ps.1 = f ∧ k ∈ ps.2 := by decide +kernel
 
-/-- the frame transforms reach both filter functions wherever the frame's evaluation calls them -/
-theorem transforms_passed_to_filters :
-    ("filter_objects", "transforms") ∈ Gen.callSiteKeywords ∧
-    ("filter_object_results", "transforms") ∈ Gen.callSiteKeywords ∧
-    ("get_object_results", "transforms") ∈ Gen.callSiteKeywords := by decide +kernel
-
 end PEval.C10
